@@ -217,6 +217,14 @@ def load_cases(prop: str) -> List[dict]:
                     with open(os.path.join(REGRESS_DIR, ent["file"]), encoding="utf-8") as fh2:
                         diff = fh2.read()
                     cases.append({"name": f"regress/{ent['tag']}", "kind": "mutant", "payload_kind": "diff", "diff": diff, "expect_rule": ent["detected_by"][prop]})
+    # behaviour-preserving refactorings written by independent sub-agents (full test suite passes with each): every rule
+    # set must stay silent on every one of them
+    rdir = os.path.join(VERIF_ROOT, "selftest", "refactors")
+    if os.path.isdir(rdir):
+        for name in sorted(os.listdir(rdir)):
+            if name.endswith(".diff"):
+                with open(os.path.join(rdir, name), encoding="utf-8") as fh:
+                    cases.append({"name": f"refactor/{name[:-5]}", "kind": "variant", "payload_kind": "diff", "diff": fh.read()})
     return cases
 
 
